@@ -65,6 +65,17 @@ ObserversHold == [][DesignClauses(S, ev', S', aux) = {}]_vars
 (* which clauses fail, for diagnosis *)
 Diagnose == [][LET bad == DesignClauses(S, ev', S', aux) IN
                bad = {} \/ PrintT(<<"DESIGN-FAIL", cfg.cid, S'.now, ev', bad>>)]_vars
+(* Why no wake-up is lost (the retry protocol of the design): a device holding a finished item either *)
+(* has a hand-over attempt pending, or has been refused and waits for a notification, or cannot hand   *)
+(* over at all (shut down; a source without budget); a non-empty buffer likewise                        *)
+RetryProtocol ==
+    mode = "run" =>
+    \A d \in HoldDevs \ Sinks :
+        LET pending == \E e \in S.q : e.asset = d /\ e.kind = "pass" /\ ~e.cancelled IN
+        /\ (Kind(d) # "buffer" /\ S.dev[d].out # 0 /\ Operational(S, d) /\ (Kind(d) = "source" => Remaining(S, d) >= 1))
+              => (pending \/ S.dev[d].wds)
+        /\ (Kind(d) = "buffer" /\ S.dev[d].buf # <<>>) => (pending \/ S.dev[d].wds)
+
 (* behaviours for replay: the dispatch order of a sample of the completed runs *)
 SampleHist == (mode = "done" /\ RandomElement(1..SampleEvery) = 1) => PrintT(<<"HIST", cfg.cid, ToJson(hist)>>)
 (* every run reaches its horizon: within one instant only boundedly many events are dispatched *)
